@@ -51,6 +51,9 @@ struct System {
     /// (solution, start) = value x xs.  A uniformly scaled system is as well conditioned as the unscaled one.
     cs: f64,
     xs: f64,
+    /// rotation of the order in which the terms of equation k are added up (the order in which a tape meets its
+    /// variables, and so its own numbering of them, follows from it)
+    rot: bool,
 }
 
 fn gen_system(rng: &mut Rng, n: usize, satisfied_start: bool) -> System {
@@ -101,18 +104,60 @@ fn gen_system(rng: &mut Rng, n: usize, satisfied_start: bool) -> System {
         eqs.push((coefs.clone(), truth[j]));
     }
     let start: Vec<f32> = (0..n).map(|i| if fixed[i] || loose[i] || satisfied_start { truth[i] as f32 } else { truth[i] as f32 + rng.below(7) as f32 - 3.0 }).collect();
-    System { vars, names, fixed, start, eqs, truth, loose, cs: 1.0, xs: 1.0 }
+    System { vars, names, fixed, start, eqs, truth, loose, cs: 1.0, xs: 1.0, rot: false }
+}
+
+/// Directed systems.  `dense`: every equation mentions every parameter (free and fixed), diagonally dominant, and the
+/// terms of equation k are added up starting from term k: all tapes read the same set of variables but number them
+/// differently.  `partial`: non-negative coefficients, the first equation mentions only the first free parameter, and
+/// the start is the solution for that parameter and below it for all others: one residual is exactly zero at the
+/// start, all others are negative.
+fn gen_directed(rng: &mut Rng, n: usize, dense: bool) -> System {
+    let vars: Vec<Var> = (0..n).map(|i| match (i, rng.below(3)) { (0, 0) => Var::X, (1, 0) => Var::Y, (2, 0) => Var::Z, _ => Var::new() }).collect();
+    let names: Vec<String> = (0..n).map(|i| format!("p{i}")).collect();
+    // distinct solution values: a parameter bound by position instead of identity is then bound to another value
+    let mut truth: Vec<i64> = (0..n as i64).map(|i| i - n as i64 / 2).collect();
+    for i in (1..n).rev() { truth.swap(i, rng.below(i + 1)); }
+    let mut fixed: Vec<bool> = (0..n).map(|i| i > 0 && rng.below(4) == 0).collect();
+    fixed[0] = false;
+    let free_idx: Vec<usize> = (0..n).filter(|i| !fixed[*i]).collect();
+    let mut eqs = vec![];
+    for (k, &fi) in free_idx.iter().enumerate() {
+        let mut coefs = vec![0i64; n];
+        if dense {
+            for j in 0..n { coefs[j] = [-1i64, 1, 1, -1][rng.below(4)]; }
+            coefs[fi] = n as i64 + 2 + rng.below(3) as i64;
+        } else if k == 0 {
+            coefs[fi] = 3;
+        } else {
+            coefs[fi] = 8 + rng.below(4) as i64;
+            for _ in 0..rng.below(4) { let j = rng.below(n); if j != fi { coefs[j] = 1 + rng.below(2) as i64; } }
+        }
+        let b: i64 = (0..n).map(|j| coefs[j] * truth[j]).sum();
+        eqs.push((coefs, b));
+    }
+    let start: Vec<f32> = (0..n).map(|i| {
+        if fixed[i] { truth[i] as f32 }
+        else if dense { truth[i] as f32 + rng.below(7) as f32 - 3.0 }
+        else if i == free_idx[0] { truth[i] as f32 }
+        else { truth[i] as f32 - 1.0 - rng.below(3) as f32 }
+    }).collect();
+    System { vars, names, fixed, start, eqs, truth, loose: vec![false; n], cs: 1.0, xs: 1.0, rot: dense }
 }
 
 fn run<F: MathFunction + Clone>(w: &mut dyn Write, id: &mut usize, backend: &str, sys: &System) {
     let mut ctx = Context::new();
     let mut fs = vec![];
     let (cs, xs) = (sys.cs, sys.xs);
-    for (coefs, b) in &sys.eqs {
+    for (k, (coefs, b)) in sys.eqs.iter().enumerate() {
         let mut t = Tree::constant(-((*b as f64 * cs * xs) as f32));
-        for (j, c) in coefs.iter().enumerate() {
+        let nv = coefs.len();
+        for q in 0..nv {
+            let j = if sys.rot { (q + k) % nv } else { q };
+            let c = &coefs[j];
             if *c != 0 {
-                t = t + Tree::from(sys.vars[j]) * Tree::constant((*c as f64 * cs) as f32);
+                // every other equation of a rotated system is also nested from the other side
+                t = if sys.rot && k % 2 == 1 { Tree::from(sys.vars[j]) * Tree::constant((*c as f64 * cs) as f32) + t } else { t + Tree::from(sys.vars[j]) * Tree::constant((*c as f64 * cs) as f32) };
             }
         }
         let n = ctx.import(&t);
@@ -252,6 +297,19 @@ fn main() {
             }
             run::<VmFunction>(&mut w, &mut id, "vm", &sys);
             if rep % 2 == 0 {
+                run::<JitFunction>(&mut w, &mut id, "jit", &sys);
+            }
+        }
+    }
+    // directed systems: the same parameters numbered differently by every tape; one residual exactly zero at the start
+    for n in 2..=(if quick { 9 } else { 16 }) {
+        for rep in 0..(if quick { 2 } else { 8 }) {
+            if SLOW.load(std::sync::atomic::Ordering::Relaxed) >= 2 * MAX_SLOW {
+                break;
+            }
+            let sys = gen_directed(&mut rng, n, rep % 2 == 0);
+            run::<VmFunction>(&mut w, &mut id, "vm", &sys);
+            if (n + rep) % 2 == 0 {
                 run::<JitFunction>(&mut w, &mut id, "jit", &sys);
             }
         }
